@@ -23,14 +23,14 @@ ASSUMPTIONS = [
     "uniform support is closed [min,max] (float-safe); means within 6.5 standard errors of 1500 draws",
 ]
 REQUIRED = {
-    "quick": {"extends/ok": 900, "extends/cycle_refused": 80, "extends/missing_parent_refused": 80,
+    "quick": {"extends/ok": 700, "extends/cycle_refused": 80, "extends/missing_parent_refused": 80,
               "extends/depth>=3": 150, "extends/excluded_key_in_parent": 150, "groups/range_len_1": 20,
               "groups/range_len_2": 20, "groups/range_len>=3": 100, "groups/count": 100, "groups/count_0": 5,
               "groups/invalid_refused": 30, "groups/count_inherited_from_listed_group": 20, "access/checked_agents": 500, "random/values": 100000,
               "random/malformed_refused": 200, "class/builtin_resolved": 200, "class/user_resolved": 30,
               "class/clash_refused": 30, "class/unknown_refused": 30, "legacy/pairs_compared": 100,
               "legacy/both_spellings_refused": 20},
-    "thorough": {"extends/ok": 27000, "extends/cycle_refused": 2400, "extends/missing_parent_refused": 2400,
+    "thorough": {"extends/ok": 21000, "extends/cycle_refused": 2400, "extends/missing_parent_refused": 2400,
                  "extends/depth>=3": 4500, "extends/excluded_key_in_parent": 4500, "groups/range_len_1": 500,
                  "groups/range_len_2": 500, "groups/range_len>=3": 3000, "groups/count": 3000, "groups/count_0": 150,
                  "groups/invalid_refused": 900, "groups/count_inherited_from_listed_group": 600, "access/checked_agents": 15000, "random/values": 3000000,
